@@ -129,5 +129,13 @@ def obligations(tier: str) -> list[Ob]:
             bounds={"pre-state": "directory exists or not", "overwrite": "both"},
         )
     )
+    obs.append(
+        harness_ob(
+            "filesystem_effects", "C19_effects.py", tier, timeout=150 if q else 400, cpus=3, replay_func="vlib.props.C19:replay",
+            encoded=["openapi_python_client:Project.build", "openapi_python_client:Project._create_package", "openapi_python_client:Project._build_metadata", "openapi_python_client:Project._build_models", "openapi_python_client:Project._build_api", "openapi_python_client:Project._run_post_hooks"],
+            stubs=["Path.mkdir / Path.write_text / shutil.rmtree / shutil.which / subprocess.run are recording stubs; template rendering returns the empty string; GeneratorData.models/enums (one-shot generators) are materialised as lists"],
+            bounds={"metadata flavours": 4, "overwrite": "both", "output directory pre-exists": "both", "post hooks": "none / one", "document": "1 model, 1 enum, 2 operations under 2 tags"},
+        )
+    )
     obs.append(Ob("replay_histories", "vlib.replay_checks:histories", {}, timeout_s=900 if q else 3000, engine="replay", cpus=1))
     return obs
